@@ -103,7 +103,14 @@ def describe_oid(M, oid):
 
 def check_to_dict(env, M, plan, fail, stats):
     sep = plan['sep']
-    for oid in M.alive():
+    oids = M.alive()
+    k = plan['bag_order'] % 3        # which object is asked first matters while other objects are still unsaved
+    if k == 1: oids = oids[::-1]
+    elif k == 2: oids = oids[1:] + oids[:1]
+    else:
+        unsaved = env.resolve(M) if env.handles else ()
+        oids = [x for x in oids if x not in unsaved] + [x for x in oids if x in unsaved]   # saved objects first
+    for oid in oids:
         obj = env.obj(M, oid)
         ei = oid[0]
         osel, xsel = plan['only'].get(str(ei)), plan['exclude'].get(str(ei))
@@ -120,6 +127,9 @@ def check_to_dict(env, M, plan, fail, stats):
             where = '%s.to_dict(%s)' % (describe_oid(M, oid), ', '.join('%s=%r' % kv for kv in sorted(kw.items())))
             ok, got = guarded(fail, 'to_dict_error', where, obj.to_dict, **kw)
             stats['to_dict_calls'] = stats.get('to_dict_calls', 0) + 1
+            # objects created in this session get their database-generated key when they are saved; to_dict() reports
+            # keys, so whatever it lists must have one by now
+            pending = env.resolve(M) if env.handles else ()
             if not ok: continue
             if not isinstance(got, dict) or sorted(got) != sorted(names):
                 fail('to_dict_keys', '%s has keys %r, expected %r' % (where, sorted(got), sorted(names)))
@@ -128,6 +138,17 @@ def check_to_dict(env, M, plan, fail, stats):
                 d = M.ad[ei][n]
                 exp = M.get(oid, n)
                 g = got[n]
+                if pending:
+                    unsaved = ([oid] if d['kind'] == 'scalar' and d['pk'] and oid in pending else
+                               [exp] if d['kind'] == 'one' and exp in pending else
+                               sorted(x for x in exp if x in pending) if d['kind'] == 'many' else [])
+                    if unsaved:
+                        if not ro or d['kind'] == 'scalar':
+                            stats['pending_key_reports'] = stats.get('pending_key_reports', 0) + 1
+                            fail('to_dict_pending_key', '%s: %s is reported as %r although the new E%d object(s) created in '
+                                 'this session (%d of them) have not been given their database key yet'
+                                 % (where, n, g, unsaved[0][0], len(unsaved)))
+                        continue
                 if d['kind'] == 'scalar':
                     ok = cm.same_value(g, exp)
                     expd = exp
@@ -757,24 +778,48 @@ def execute(case, fail, workdir, stats, allow_sub):
         M = cm.mirror_from_case(case)
         with db_session:
             env.populate(M)
+        env.end_session()
         records = None
         with db_session:
+            for x in plan.get('preread', ()):
+                x = tuple(x)
+                if x not in M.objs: continue
+                o = env.obj(M, x)
+                for d in M.meta[x[0]]:
+                    v = getattr(o, d['name'])
+                    if d['kind'] == 'many': list(v)
+                stats['preread_objects'] = stats.get('preread_objects', 0) + 1
             for op in case['mods']:
                 before = M.copy()
                 if not M.apply(op): continue
                 env.apply(before, M, op)
             order = ['bag', 'dict'] if plan['first'] == 'bag' else ['dict', 'bag']
+            if env.resolve(M):
+                order = ['dict', 'bag']   # the serialisation bag does not promise to save: it is asked about saved state
+                stats['auto_key_pending'] = stats.get('auto_key_pending', 0) + 1
             for part in order:
+                if part == 'bag' and env.resolve(M):
+                    flush(); env.resolve(M)
                 if part == 'bag':
                     enc, dec = calibrate_keys(env, M, fail, stats)
                     check_bag(env, M, plan, enc, dec, fail, stats)
                     check_dbjson(env, M, plan, fail, stats)
                 else:
                     check_to_dict(env, M, plan, fail, stats)
+            if env.resolve(M):
+                flush(); env.resolve(M)
             if plan['pickle_where'] == 'same':
                 flush()
                 records, lazy = do_pickle(env, M, plan, True, fail, stats)
+        env.end_session()
         M.fresh = set()
+        with db_session:      # the keys copied from the objects are the keys of the stored rows (raw SQL)
+            for ei, e in enumerate(spec['ents']):
+                if e['pk'] != 'auto': continue
+                stored = sorted(env.db.select('select id from E%d' % ei))
+                mine = sorted(M.objs[x]['vals']['id'] for x in M.alive(ei))
+                if stored != mine:
+                    fail('auto_key_mismatch', 'E%d: the rows have keys %r, the objects reported %r' % (ei, stored, mine))
         S = M.copy()
         if records is None:
             with db_session:
